@@ -1,6 +1,7 @@
 (** C19 - device and channel descriptions are read-only apart from enable and divider. *)
 From Coq Require Import String ZArith List.
 From NX Require Import Records Records_proofs.
+From NX Require PyLite Src_all Src_records_proofs.
 Open Scope string_scope.
 Open Scope Z_scope.
 
@@ -46,6 +47,53 @@ Theorem C19_device_derived : forall chmax flags rx,
   get r "ack_supported" = Some (PBool (Z.odd (flags / 2))).
 Proof. exact dev_derived. Qed.
 
+(** ** directly on dev.py as it is now: the regenerated abstract syntax of the two
+    dataclasses (generated __init__ written out, __post_init__, __setattr__) run by the PyLite
+    interpreter.  [chan_rec] / [dev_rec] are the records the interpreted constructors build
+    (all 13 / 6 fields explicit, derived values included), for EVERY argument - no range
+    restriction on the type value; [set_attr] is setattr(obj, name, value) returning obj. *)
+Section OnSource.
+Import ListNotations PyLite Src_all Src_records_proofs.
+Open Scope list_scope.
+
+Theorem C19_construct_channel_src : forall n chan typ vdim name en div mlen,
+  construct program (3 + n) "DDeviceChannelData"
+    [PInt chan; PInt typ; PInt vdim; PStr name; PBool en; PInt div; PInt mlen] =
+  PyLite.Ok (chan_rec chan typ vdim name en div mlen).
+Proof. exact chan_construct. Qed.
+
+Theorem C19_construct_device_src : forall n chmax flags rxp,
+  construct program (3 + n) "DDeviceData" [PInt chmax; PInt flags; PInt rxp] =
+  PyLite.Ok (dev_rec chmax flags rxp).
+Proof. exact dev_construct. Qed.
+
+(** every attribute name (any string), every value (any Python value of the subset) *)
+Theorem C19_channel_src : forall n chan typ vdim name en div mlen a v,
+  call_function program (2 + n) "set_attr" [chan_rec chan typ vdim name en div mlen; PStr a; v] =
+  if orb (String.eqb a "div") (String.eqb a "en")
+  then PyLite.Ok (PObj "DDeviceChannelData"
+                    (update a v (chan_fields chan typ vdim name (PBool en) (PInt div) mlen)))
+  else Exc "TypeError".
+Proof. exact chan_set_attr_all. Qed.
+
+Theorem C19_device_src : forall n chmax flags rxp a v,
+  call_function program (2 + n) "set_attr" [dev_rec chmax flags rxp; PStr a; v] = Exc "TypeError".
+Proof. exact dev_set_attr_readonly. Qed.
+
+(** the library's own maintenance of en / div goes through the same records *)
+Theorem C19_library_updates_en_src : forall n flags rxp chans l,
+  List.length l = List.length chans ->
+  call_method program (2 + n) (dev_obj flags rxp chans) "en_channels_update" [PList (map PBool l)] =
+  PyLite.Ok (PNone, dev_obj flags rxp (zipw set_en chans l)).
+Proof. exact en_channels_update_spec. Qed.
+
+Theorem C19_library_updates_div_src : forall n flags rxp chans l,
+  List.length l = List.length chans ->
+  call_method program (2 + n) (dev_obj flags rxp chans) "div_channels_update" [PList (map PInt l)] =
+  PyLite.Ok (PNone, dev_obj flags rxp (zipw set_div chans l)).
+Proof. exact div_channels_update_spec. Qed.
+End OnSource.
+
 Example C19_example :
   snd (chan_setattr (chan_new 3 130 2 "x" false 0 1) "vdim" (PInt 9)) = TypeError /\
   get (fst (chan_setattr (chan_new 3 130 2 "x" false 0 1) "en" (PBool true))) "en" = Some (PBool true).
@@ -56,3 +104,6 @@ Print Assumptions C19_only_that.
 Print Assumptions C19_device.
 Print Assumptions C19_derived.
 Print Assumptions C19_device_derived.
+Print Assumptions C19_channel_src.
+Print Assumptions C19_device_src.
+Print Assumptions C19_construct_channel_src.
